@@ -21,6 +21,15 @@
                               UPDATE contracts SET revision_number, raw_revision, signatures),
                               deferred Unlock
 
+   WP-G (fixes/C06-revise-guard-at-commit.patch, contained in the model): Manager.Lock evaluates
+   isGoodForModification when the lock is ACQUIRED ([SAcq1]); a session may then keep the lock across any
+   number of blocks ([SOp t (SetHeight h)] between its calls).  The manager calls of a session that persist a
+   v1 revision — [Open1], [Commit1], [Renew1] of Model.v — evaluate the guard again at the tip of that
+   moment; rpcRenewAndClearContract asks Manager.Revisable once more before the pool step, which [SRenewH]
+   does not show as a step of its own: a guard that fails answers EInvalid and changes nothing whether the
+   pool is asked first or not.  RHP3 payments ([SPayPersist]) persist through accounts.Credit under the
+   lock taken for that RPC and are guarded by that Lock only.  Statements: Guard.v, Props_C06_Guard.v.
+
    [variant] switches on the two orders the seeded changes C03-mut7 / C13-mut8 introduce (Legacy:
    never the code at HEAD); the faithful model is [faithful].  A payment persisted after its
    session released the lock (C13-mut7) is not a variant of a step but a schedule: the
